@@ -2,9 +2,9 @@ package checks
 
 import (
 	"fmt"
-	"sync/atomic"
 	"sort"
 	"strings"
+	"sync/atomic"
 	"time"
 
 	"verif/internal/ev"
